@@ -9,7 +9,7 @@ def run(ctx):
                        "generator of C02 and the library's own writer -- read by the real reader; TLC decodes the ORIGINAL with SmfParse!Decode and checks each "
                        "result is an error or a value with the original header whose tracks are event-for-event prefixes; (ii) arbitrary bytes: random, "
                        "header+random, up to 65535 minimal track chunks, one track of 6000-20000 two/three-byte events, grammar-blind mutations of valid files (flip/insert/delete/boundary length fields/class replacement/splice); "
-                       "every call under recover, a 10 s watchdog and a TotalAlloc measurement; distinct by content; non-trivial = at least 16 bytes")
+                       "every call under recover, a 30 s watchdog and a TotalAlloc measurement; distinct by content; non-trivial = at least 16 bytes")
     ctx.cov["checker_cmd"] = "tlc MC_SmfGen (IncompleteRejected: no incomplete file is accepted as complete) ; tlc Trace_Smf (ev=cut, ev=any)"
     ctx.cov["trusted_base"] = ["TLC", "spec/SmfParse.tla", "harness: recover/watchdog/ReadMemStats and the structural prefix comparison against the library's own full read "
                                "(TLC checks that full read equals Decode(original); on any doubt complete values are logged and TLC compares them itself)"]
